@@ -374,6 +374,9 @@ func WorkerMain(hs []*Harness) int {
 		data, _ := json.MarshalIndent(sum, "", " ")
 		fmt.Println(string(data))
 	}
+	if sum.StoppedEarly {
+		return 3 // stopped in good order because of its heap: the orchestrator starts a replacement
+	}
 	return 0
 }
 
